@@ -33,6 +33,9 @@ CLAIMS = {
          "both epoch schedules, fee extension at different TLV positions) + trace validation of swap_v2 / increase / decrease v2 on transfer-fee pools where the real Token-2022 "
          "processor withholds the fee (vault receives >= curve amount, smallest request, thresholds on actual amounts, event fields)",
          "by-token-amounts / reposition / two-hop with transfer fees are exercised by the histories but only their common invariants (C01-style) are checked, not the per-transfer contract", "4 C16"),
+ "C17": ("trace validation with a differential oracle stated by the spec (TwoHop = Swap1 . Swap2 with in2 = out1): every recorded two-hop (v1, v2; 4 direction combinations; both modes; "
+         "limits; thresholds realised +-1; invalid pool pairs) is compared, account by account, with its two single swaps executed on a copy of the bank; failure reasons are forced",
+         "transfer-fee intermediate mints are not part of the equality claim (the two-hop moves vault to vault)", "4 C17"),
  "C05": ("TLC model checking of LiqSum/TickSums/TickInit on the toy instance + the same invariants evaluated by TLC on the projected state after every "
          "recorded instruction (both tick-array encodings, Pinocchio handlers)", "as C01", "4 C05"),
  "C06": ("TLC model checking of StepsOK/SplitExact action properties on the toy instance + trace validation: per-step fee formula, protocol cut, growth "
